@@ -139,6 +139,11 @@ func (session *ClientCommandSession) WaitChan() <-chan error {
 // ---------------------------------------------------------------------------------------------------------------------
 
 func (session *ClientCommandSession) WriteInterleavedPacket(packet []byte, channel int) error {
+	if len(packet) > maxInterleavedPacketLen {
+		// the length field of an interleaved frame has 16 bits (rfc2326 10.12): a longer packet cannot be framed,
+		// writing it with a wrapped length would desynchronise the peer for the rest of the connection
+		return nazaerrors.Wrap(base.ErrRtsp)
+	}
 	if session.conn == nil {
 		return base.ErrSessionNotStarted
 	}
